@@ -327,7 +327,12 @@ impl Prop for C05 {
             .iter()
             .map(|&i| {
                 let rs = seed::run_seed(ctx.base_seed ^ 0xC05, i);
-                if i % 3 == 2 { pipeline::generate_api(rs, 12) } else { pipeline::generate_with(rs, 12) }
+                let mut s = if i % 3 == 2 { pipeline::generate_api(rs, 12) } else { pipeline::generate_with(rs, 12) };
+                // thorough tier: a fifth of the runs with 9..16 workers
+                if ctx.tier == Tier::Thorough && i % 5 == 0 {
+                    s.cfg.threads = 9 + (rs % 8) as u32;
+                }
+                s
             })
             .collect();
         run_specs("C05", specs, indices)
